@@ -87,6 +87,14 @@ CHECKS = {
          "widths plus unwrapped and compared byte for byte; the oracle checks content equality and line lengths on the "
          "library's text alone.",
          "4/C13", "Rocq proof (lock-step simulation over tokens and chunks) over a hand-written model + byte-exact differential rendering + text oracle"),
+ "C20": ("proof", "Theorems in coq/Props/C20.v: C20_run_inner -- the feature record does not influence run_inner for any parser/vector "
+         "(true after the fix: commit; the model carries the cfg switches where the code has them); with and without docgen the "
+         "splitter and hence console rendering coincide for every text without a fenced code block (proved), and differ with "
+         "one (refutation witness = known finding). Partial by nature: derive/batteries and the cargo build itself have no "
+         "model content. Tie: the same seeded corpus is run by the harness built against /repo with feature sets none / "
+         "autocomplete / autocomplete+docgen+batteries / dull-color / bright-color and the outcome lines (class, value, "
+         "monochrome help and error text) are compared pairwise, plus the model differential on the reference build.",
+         "4/C20", "Rocq proof (feature switches inert in the model) + five feature builds of the harness diffed on one corpus"),
 }
 
 NA_REASON = "check not built yet in this revision (machinery under construction; see DESIGN.md section 7 staging)"
